@@ -130,9 +130,14 @@ def run(ctx: Ctx) -> Result:
         outsider = T.make_single_sig_witness(seeds[0], sf, wf) + T.make_single_sig_witness(seeds[3], sf, wf)
         ok, v = B.auth([outsider.bytes, locks['multisig'].bytes], sf)
         if ok: B.viol('multisig 2-of-3 met by one holder plus an outsider', {**inp, 'scripts': [outsider.bytes.hex(), locks['multisig'].bytes.hex()], 'cache': vmrun.cache_str(sf, False)}, False, v)
-        other = T.Script.from_src('true true pop0')
-        ok, v = B.auth([T.make_scripthash_witness(other).bytes, locks['scripthash'].bytes], sf)
-        if ok: B.viol('scripthash lock runs a different script', {**inp, 'scripts': [T.make_scripthash_witness(other).bytes.hex(), locks['scripthash'].bytes.hex()], 'cache': vmrun.cache_str(sf, False)}, False, v)
+        # uncommitted scripts, including the one-byte items that would *be* a true verdict if the lock let them through unevaluated
+        for other in [T.Script.from_src('true true pop0'), T.Script.from_src('true')] + [T.Script('', bytes([x])) for x in (0xff, 0x01, 0x00, 0xfe, rng.randrange(256))]:
+            try: wb = T.make_scripthash_witness(other).bytes
+            except BaseException: continue
+            if other.bytes == committed.bytes: continue
+            for pre in (b'', T.make_single_sig_witness(seeds[3], sf, wf).bytes):
+                ok, v = B.auth([pre + wb, locks['scripthash'].bytes], sf)
+                if ok: B.viol(f'scripthash lock accepts a witness for a different script ({other.bytes.hex()[:20]})', {**inp, 'scripts': [(pre + wb).hex(), locks['scripthash'].bytes.hex()], 'cache': vmrun.cache_str(sf, False)}, False, v)
         foreign = T.make_graftroot_witness_surrogate(seeds[3], T.Script.from_src('true'))
         ok, v = B.auth([foreign.bytes, locks['graftroot'].bytes], sf)
         if ok: B.viol('graftroot lock runs a surrogate signed by another key', {**inp, 'scripts': [foreign.bytes.hex(), locks['graftroot'].bytes.hex()], 'cache': vmrun.cache_str(sf, False)}, False, v)
